@@ -246,4 +246,49 @@ theorem gen_propertyHeader (p : RawProp) (src : Generated.SrcProperty) (hs : p.t
         simp [writesBytes, leBytes_one, Nat.shiftLeft_eq]
   | deportedInt a b c e => simp [RawProp.toSrc] at hs
 
+/-! ### the layout header of an entry store, the entry-store tail -/
+
+theorem props_writes (ps : List RawProp) (ss : List Generated.SrcProperty)
+    (hs : ps.map RawProp.toSrc = ss.map some) (hw : ∀ p ∈ ps, p.HeaderWF) :
+    (ps.map RawProp.encode).flatten = writesBytes (ss.flatMap Generated.propertyWrites) := by
+  induction ps generalizing ss with
+  | nil =>
+    cases ss with
+    | nil => simp [writesBytes]
+    | cons s ss => simp at hs
+  | cons p ps ih =>
+    cases ss with
+    | nil => simp at hs
+    | cons s ss =>
+      simp only [List.map_cons, List.cons.injEq] at hs
+      obtain ⟨h1, h2⟩ := hs
+      simp only [List.map_cons, List.flatten_cons, List.flatMap_cons, writesBytes_append]
+      rw [gen_propertyHeader p s h1 (hw p List.mem_cons_self), ih ss h2 (fun q hq => hw q (List.mem_cons_of_mem _ hq))]
+
+theorem flatMap_flatMap_flatten {α β} (vs : List (List α)) (f : α → List β) :
+    (vs.flatMap fun v => v.flatMap f) = vs.flatten.flatMap f := by
+  induction vs with
+  | nil => rfl
+  | cons v vs ih => simp only [List.flatMap_cons, List.flatten_cons, List.flatMap_append, ih]
+
+/-- **The entry-store tail of the model (kind, entry count, flag, layout header: entry size, variant count,
+    property count, every property header) is the byte image of the writes of `EntryStore::serialize_tail`,
+    `Entry::serialize` and `Property::serialize` translated on every run.**  (The property count is the
+    model's: `key_count()` contains a closure and is not translated.) -/
+theorem gen_entryStoreTail (l : LayoutOut) (n : Nat) (srcC : List Generated.SrcProperty)
+    (srcV : List (List Generated.SrcProperty))
+    (hc : l.common.map RawProp.toSrc = srcC.map some)
+    (hv : l.variants.flatten.map RawProp.toSrc = srcV.flatten.map some)
+    (hlen : srcV.length = l.variants.length)
+    (hw : ∀ p ∈ l.common ++ l.variants.flatten, p.HeaderWF) (hn : n < 2 ^ 32) :
+    entryStoreTail l n = writesBytes (Generated.entryStoreTailWrites n
+      (Generated.entryLayoutWrites l.entrySize (l.common ++ l.variants.flatten).length srcC srcV)) := by
+  have h1 := props_writes l.common srcC hc (fun p hp => hw p (List.mem_append_left _ hp))
+  have h2 := props_writes l.variants.flatten srcV.flatten hv (fun p hp => hw p (List.mem_append_right _ hp))
+  have hfm := flatMap_flatMap_flatten srcV Generated.propertyWrites
+  have hn' : n % 4294967296 = n := Nat.mod_eq_of_lt (by simpa using hn)
+  simp only [entryStoreTail, Generated.entryStoreTailWrites, Generated.entryLayoutWrites, List.nil_append, hn',
+    writesBytes_append, List.map_append, List.flatten_append, h1, h2, hfm, hlen]
+  simp [writesBytes, leBytes_one, ofNat_mod_u8]
+
 end Jubako
